@@ -92,6 +92,11 @@ var c08Garbage = [][]byte{
 var c08Names = []string{"example.com", "*.Example.COM", "issue_cert_example.com", "a b/c:d", "über.example",
 	"../../etc/passwd", " padded ", "UPPER.case", "wildcard_.example.com", "x+y", "ocsp-a|b", "etcpasswd"}
 
+// two long lock names that agree on their first 210 characters: still two locks
+func init() {
+	c08Names = append(c08Names, strings.Repeat("l", 210)+"-one", strings.Repeat("l", 210)+"-two")
+}
+
 func c08Residue(k int) int64 { return int64(k+1) * 7 * c08Ms }
 
 func c08GenScenario(rng *mrand.Rand, base time.Time) *c08Scn {
